@@ -138,19 +138,31 @@ struct CoLeaf {
   template <class R> friend Op<unifex::remove_cvref_t<R>> tag_invoke(unifex::tag_t<unifex::connect>, CoLeaf s, R&& r) { return Op<unifex::remove_cvref_t<R>>{(R &&) r, s.in_cleanup}; }
 };
 
-// a plain awaitable (not a sender): ready or suspending; yields a value or throws
+// a plain awaitable (not a sender): ready or suspending; yields a value or throws.  Three await_suspend shapes: void,
+// bool (false = "did not suspend after all", true = suspended), coroutine_handle (symmetric transfer to the awaiter itself)
 struct HAwaitable {
-  long id; int mode;   // bit0: suspends (resumed later by the driver), bit1: throws
-  struct awaiter {
+  long id; int mode;   // bit0: suspends (resumed later by the driver), bit1: throws, bits 2-3: await_suspend shape (0 void, 1 bool, 2 handle)
+  struct base {
     long id; int mode; unifex::coro::coroutine_handle<> h{};
-    bool await_ready() const noexcept { return !(mode & 1); }
-    void await_suspend(unifex::coro::coroutine_handle<> hh) noexcept {
-      h = hh; E().pending.push_back(Pending{3, this, [](void* p, int) { static_cast<awaiter*>(p)->h.resume(); }, -1});
-    }
+    void park(unifex::coro::coroutine_handle<> hh) noexcept { h = hh; E().pending.push_back(Pending{3, this, [](void* p, int) { static_cast<base*>(p)->h.resume(); }, -1}); }
     long await_resume() const { if (mode & 2) throw ProgErr{500 + id}; return 7000 + id; }
   };
-  awaiter operator co_await() const noexcept { return awaiter{id, mode}; }
+  struct awaiter_void : base {
+    bool await_ready() const noexcept { return !(this->mode & 1); }
+    void await_suspend(unifex::coro::coroutine_handle<> hh) noexcept { this->park(hh); }
+  };
+  struct awaiter_bool : base {
+    bool await_ready() const noexcept { return false; }
+    bool await_suspend(unifex::coro::coroutine_handle<> hh) noexcept { if (this->mode & 1) { this->park(hh); return true; } return false; }
+  };
+  struct awaiter_handle : base {
+    bool await_ready() const noexcept { return false; }
+    unifex::coro::coroutine_handle<> await_suspend(unifex::coro::coroutine_handle<> hh) noexcept { if (this->mode & 1) { this->park(hh); return unifex::coro::noop_coroutine(); } return hh; }
+  };
 };
+struct HAwaitableVoid { long id; int mode; HAwaitable::awaiter_void operator co_await() const noexcept { return {{id, mode}}; } };
+struct HAwaitableBool { long id; int mode; HAwaitable::awaiter_bool operator co_await() const noexcept { return {{id, mode}}; } };
+struct HAwaitableHandle { long id; int mode; HAwaitable::awaiter_handle operator co_await() const noexcept { return {{id, mode}}; } };
 
 struct XSched {
   int ctx = 0;
@@ -223,8 +235,18 @@ unifex::task<long> run_node(int n) {
       case S_THROW: throw ProgErr{(long)st.a};
       case S_STOP: co_await unifex::stop(); break;
       case S_SIR: co_await unifex::stop_if_requested(); E().ev(E_RESUME, f, -9); break;
-      case S_AWAITABLE: { E().ev(E_AWAITABLE, f, st.a); long v = co_await HAwaitable{st.a, st.b}; E().ev(E_RESUME, f, v); acc = (long)((unsigned long)acc * 31u + (unsigned long)v); break; }
-      case S_AS_SENDER: { E().ev(E_AWAITABLE, f, st.a); long v = co_await unifex::as_sender(HAwaitable{st.a, st.b}); E().ev(E_RESUME, f, v); acc = (long)((unsigned long)acc * 31u + (unsigned long)v); break; }
+      case S_AWAITABLE: {
+        E().ev(E_AWAITABLE, f, st.a); long v;
+        int shape = (st.b >> 2) & 3;
+        if (shape == 1) v = co_await HAwaitableBool{st.a, st.b}; else if (shape == 2) v = co_await HAwaitableHandle{st.a, st.b}; else v = co_await HAwaitableVoid{st.a, st.b};
+        E().ev(E_RESUME, f, v); acc = (long)((unsigned long)acc * 31u + (unsigned long)v); break;
+      }
+      case S_AS_SENDER: {
+        E().ev(E_AWAITABLE, f, st.a); long v;
+        int shape = (st.b >> 2) & 3;
+        if (shape == 1) v = co_await unifex::as_sender(HAwaitableBool{st.a, st.b}); else if (shape == 2) v = co_await unifex::as_sender(HAwaitableHandle{st.a, st.b}); else v = co_await unifex::as_sender(HAwaitableVoid{st.a, st.b});
+        E().ev(E_RESUME, f, v); acc = (long)((unsigned long)acc * 31u + (unsigned long)v); break;
+      }
     }
   }
   E().ev(E_RETURN, f, acc);
@@ -356,7 +378,7 @@ void vk_run_case(vk::Choice& c) {
       if (st.kind == S_CLEANUP) { st.a = cleanup_id++; st.b = (int)c.upto(2); any_cleanup = true; }
       if (st.kind == S_THROW) { st.a = 10 * n + s; if (!c.chance(1, 3)) st.kind = S_LEAF; }
       if (st.kind == S_STOP && !c.chance(1, 3)) st.kind = S_LEAF;
-      if (st.kind == S_AWAITABLE || st.kind == S_AS_SENDER) { st.a = 10 * n + s; st.b = (int)c.upto(4); if (st.b & 2) { if (!c.chance(1, 2)) st.b &= 1; } }
+      if (st.kind == S_AWAITABLE || st.kind == S_AS_SENDER) { st.a = 10 * n + s; st.b = (int)c.upto(12); if (st.b & 2) { if (!c.chance(1, 2)) st.b &= ~2; } }
       e.nodes[(size_t)n].steps.push_back(st);
     }
   }
@@ -369,7 +391,7 @@ void vk_run_case(vk::Choice& c) {
   {
     std::string d = "program:";
     static const char* sk[] = {"local", "await-sender", "child", "opt(child)", "try{child}", "at_exit", "throw", "stop()", "stop_if_requested", "awaitable", "as_sender(awaitable)", "try{await-sender}"};
-    for (int n = 0; n < nnodes; ++n) { d += vk::sfmt(" node%d[", n); for (auto& st : e.nodes[(size_t)n].steps) d += vk::sfmt("%s%s ", sk[st.kind], (st.kind == S_CHILD || st.kind == S_CHILD_OPT || st.kind == S_TRY_CHILD) ? vk::sfmt("->%d", st.a).c_str() : st.kind == S_CLEANUP ? vk::sfmt("#%d%s", st.a, st.b ? "+sender" : "").c_str() : (st.kind == S_AWAITABLE || st.kind == S_AS_SENDER) ? vk::sfmt("(%s,%s)", st.b & 1 ? "suspends" : "ready", st.b & 2 ? "throws" : "value").c_str() : ""); d += "]"; }
+    for (int n = 0; n < nnodes; ++n) { d += vk::sfmt(" node%d[", n); for (auto& st : e.nodes[(size_t)n].steps) d += vk::sfmt("%s%s ", sk[st.kind], (st.kind == S_CHILD || st.kind == S_CHILD_OPT || st.kind == S_TRY_CHILD) ? vk::sfmt("->%d", st.a).c_str() : st.kind == S_CLEANUP ? vk::sfmt("#%d%s", st.a, st.b ? "+sender" : "").c_str() : (st.kind == S_AWAITABLE || st.kind == S_AS_SENDER) ? vk::sfmt("(%s,%s,%s)", st.b & 1 ? "suspends" : "ready", st.b & 2 ? "throws" : "value", ((st.b >> 2) & 3) == 1 ? "bool await_suspend" : ((st.b >> 2) & 3) == 2 ? "handle await_suspend" : "void await_suspend").c_str() : ""); d += "]"; }
     d += " senders:";
     for (auto& s : e.leaf) d += vk::sfmt(" {%s %s ctx%d on_stop=%d}", sr::chan_name(s.chan), s.timing ? "deferred" : "inline", s.ctx, s.on_stop);
     d += vk::sfmt(" stop_at_sender#%ld", e.stop_at_occ);
